@@ -8,6 +8,9 @@ CONSTANTS
   Interleave = FALSE
   Cfgs <- CfgsSmall
   OraclesFor <- SeedOracles
+  MaxAccts = 0
+  AnswersFor <- AllAnswers
+  Deviation = {}
   ScenLen = 30
   Seeds = {1, 2, 3, 4, 5, 6, 7, 8}
   StartSlots = {2, 3, 4}
@@ -16,5 +19,6 @@ CONSTANTS
   MaxHolds = 5
   Focus = FALSE
   Disjoint = TRUE
+  Tight = FALSE
 INVARIANTS Emit
 CHECK_DEADLOCK FALSE
